@@ -316,6 +316,25 @@ func indexSafe(fs *Facts, in ssa.Instruction) (string, bool) {
 		minLen, _ := lenOf(x.X)
 		ok := true
 		desc := ""
+		// S9: an index returned by strings.Index*/LastIndex* on the sliced
+		// string itself lies in [-1, len]; with a guard against -1 it is a
+		// valid slice bound (library contract)
+		bound := x.High
+		if bound == nil {
+			bound = x.Low
+		}
+		if (x.High == nil) != (x.Low == nil) && bound != nil {
+			if c, isC := stripInt(bound).(*ssa.Call); isC {
+				switch calleeFullName(c) {
+				case "strings.Index", "strings.LastIndex", "strings.IndexByte", "strings.LastIndexByte", "strings.IndexRune", "strings.IndexAny", "strings.LastIndexAny":
+					if strip(c.Call.Args[0]) == strip(x.X) {
+						if lo, _ := idxBounds(bound); lo >= 0 {
+							return "S9: bound is the result of " + calleeFullName(c) + " on the sliced string, guarded against -1", true
+						}
+					}
+				}
+			}
+		}
 		if x.Low != nil {
 			lo, hi := idxBounds(x.Low)
 			if !(lo >= 0 && hi <= minLen) {
@@ -505,7 +524,13 @@ func marshalErrPanic(p *ssa.Panic) (string, bool) {
 
 // ruleFinite: the premises of lemma S6.
 func ruleFinite(w *World, r *Report, pkg *ssa.Package) {
-	// (a) every raw() returns only marshal-safe dynamic types
+	ruleRawTypes(w, r, pkg)
+	ruleFiniteOnly(w, r, pkg)
+}
+
+// ruleRawTypes: every raw() returns only the dynamic types both codecs render
+// faithfully and that read back as the same node type.
+func ruleRawTypes(w *World, r *Report, pkg *ssa.Package) {
 	nt := newNodeTypes(w, pkg, "v2")
 	safe := map[string]bool{"map[string]interface{}": true, "[]interface{}": true, "float64": true, "string": true, "bool": true,
 		"map[string]any": true, "[]any": true}
@@ -534,7 +559,10 @@ func ruleFinite(w *World, r *Report, pkg *ssa.Package) {
 		r.Check(bad == "", "R-RAWTYPES", fnName(fn), w.Pos(fn.Pos()), "raw() returns only map[string]interface{}, []interface{}, float64, string, bool or nil",
 			"raw() may return "+bad+", which json/yaml.Marshal can fail on: the renderers panic on a marshal error")
 	}
-	// (b) every float64 -> jsonNumber conversion in NewJsonNode is behind a finiteness test
+}
+
+func ruleFiniteOnly(w *World, r *Report, pkg *ssa.Package) {
+	// every float64 -> jsonNumber conversion in NewJsonNode is behind a finiteness test
 	fn := w.Func(pkg, "NewJsonNode")
 	n := 0
 	allInstrs(fn, func(in ssa.Instruction) {
